@@ -465,11 +465,30 @@ def build_request(req, resolve=identity, now=None):
     if req.get('async') is not None:
         H.append(BOOLEAN(TAG['ASYNCHRONOUS_INDICATOR'], req['async']))
     if req.get('cred') is not None:
-        user, pw = req['cred']
-        H.append(S(TAG['AUTHENTICATION'],
-                   S(TAG['CREDENTIAL'], E(TAG['CREDENTIAL_TYPE'], 1),
-                     S(TAG['CREDENTIAL_VALUE'], T(TAG['USERNAME'], user),
-                       T(TAG['PASSWORD'], pw) if pw is not None else None))))
+        creds = req['cred']
+        if creds and not isinstance(creds[0], (list, tuple, dict)):
+            creds = [creds]
+        nodes = []
+        for c in creds:
+            if isinstance(c, dict):
+                # device credential (KMIP 1.1): serial, password, device /
+                # network / machine / media identifier, all optional
+                kids = []
+                for key, tag in (('serial', 0x4200B0), ('password', 0x4200A1),
+                                 ('device', 0x4200A2), ('network', 0x4200AB),
+                                 ('machine', 0x4200A9), ('media', 0x4200AA)):
+                    if c.get(key) is not None:
+                        kids.append(T(tag, c[key]))
+                nodes.append(S(TAG['CREDENTIAL'],
+                               E(TAG['CREDENTIAL_TYPE'], 2),
+                               S(TAG['CREDENTIAL_VALUE'], *kids)))
+            else:
+                user, pw = c
+                nodes.append(S(
+                    TAG['CREDENTIAL'], E(TAG['CREDENTIAL_TYPE'], 1),
+                    S(TAG['CREDENTIAL_VALUE'], T(TAG['USERNAME'], user),
+                      T(TAG['PASSWORD'], pw) if pw is not None else None)))
+        H.append(S(TAG['AUTHENTICATION'], *nodes))
     if req.get('cont') is not None:
         H.append(E(TAG['BATCH_ERROR_CONTINUATION_OPTION'], req['cont']))
     if req.get('order') is not None:
